@@ -21,12 +21,14 @@ func init() {
 			"{dense, sparse, InducedSubgraph view of a larger dense/sparse graph, Complement view of the complement graph, Complement(Complement(.))}; named families with published values; seeded G(n,p), trees and regular graphs on 9..13 vertices. " +
 			"Per (graph, representation): CliqueNumber, IndependenceNumber, AllMaximalCliques (channel drained for at most |expected|+1 values, must be closed), ChromaticNumber, IsKColorable for every k in 0..n+1, ChromaticIndex, Degeneracy, " +
 			"GreedyColor (all n! orders for n<=5 (n<=6 thorough) on the first labelling; identity, reversal, smallest-last and seeded orders otherwise), IsProperColouring, ChromaticPolynomial at k=0..n+1 (dense and sparse). " +
+			"Large structured graphs with closed-form values (K_n, E_n, paths, cycles and their complements, stars, K_{a,b}, Turan and other complete multipartite graphs, unions of cliques, wheels, ladders, prisms, cocktail party graphs, hypercubes Q5..Q7, the Mycielski chain to M6) at n in {31,32,33,63,64,65,66,100,127,128,129,130,200}, identity and a seeded relabelling, dense and sparse: all functions whose cost is polynomial for a correct implementation on that family (skips are counted in large:*_skipped), IsKColorable at chi-1, chi, chi+1, maximal cliques against the closed-form list. " +
 			"non-trivial = (labelled graph, representation) with n >= 4 and m >= 2; distinct = hash of (graph6 of the labelled graph, representation)",
 		Assumptions: []string{
 			"oracle: subset scans / subset DP / plain backtracking of verif/internal/oracle/brute and of this package (edge-colouring search, partitions into independent sets, degeneracy as max-min-degree over induced subgraphs); validated at build time against the published chi and chi' histograms for n<=6, |P(Petersen,3)|=120 and a table of named graphs",
 			"isomorphism invariance of the reference values is a theorem: they are computed once per class and witnesses are checked on the labelled graph",
 			"rg.G.Dense()/Sparse() fill the exported struct fields of the library types directly (no constructor under test); a representation whose observers (N, M, IsEdge off the diagonal, Neighbours, Degrees) disagree with the model is not judged here (C05/C06) and only counted",
 			"families too large for brute force use the published value; the witness is still checked from the definition",
+			"closed forms of the large structured families are textbook values, validated against brute force on the same constructors at n <= 12 (self-check), including the Perrin count of maximal cliques of the complement of a cycle",
 		},
 		Run:            run,
 		MinEvaluations: map[string]int{"quick": 1000000, "thorough": 8000000},
@@ -36,7 +38,7 @@ func init() {
 			"calls:CliqueNumber", "calls:IndependenceNumber", "calls:AllMaximalCliques", "calls:ChromaticNumber", "calls:IsKColorable",
 			"calls:ChromaticIndex", "calls:ChromaticPolynomial|dense", "calls:ChromaticPolynomial|sparse", "calls:GreedyColor", "calls:Degeneracy", "calls:IsProperColouring",
 			"IsKColorable:k<chi(refused)", "IsKColorable:k>=chi(witness)", "chi_index:class2(Delta+1)", "chi_index:class1(Delta)", "greedy:all_orders_sets", "cliques:graphs_with_>=4_maximal_cliques",
-			"chi>omega", "edge_colouring_witness_checked",
+			"chi>omega", "edge_colouring_witness_checked", "large:graphs", "large:n=64", "large:n=128", "large:n=200",
 		},
 	})
 }
